@@ -323,6 +323,37 @@ def run(ctx):
         first_wins = sorted({x["name"] for x in writes if x["name"] in ("entry", "contains_key", "get")} | {x["name"] for x in H.walk(rec_arm["body"]) if H.kind(x) == "MethodCall" and x["name"] in ("or_insert", "or_insert_with", "or_default")})
         ins = [x for x in writes if x["name"] in ("insert", "extend")]
         ctx.inst("C14.R9", "Record#later-entry-wins", False if first_wins else (True if ins else None), "writes into the record under construction: %d unconditional insert(s)%s" % (len(ins), "" if not first_wins else "; %s keeps an earlier entry's value where a later one has the same key" % first_wins), H.loc(rec_arm["body"]))
+    # ---------------- R10 spreads in calls, the empty range, the unconditional sort
+    ctx.rule("C14.R10", "a spread argument yields its elements in place wherever it stands in a call; range(a, a) is the empty list (the bounds test refuses a > b only); and sort rearranges whenever the elements are mutually comparable - it is not made conditional on the elements' kinds (lists are ordered too)", floor=3)
+    from rules import c04 as c04_10
+    c04_10.call_arguments_in_order(ctx, "C14.R10", core)
+    mm10 = H.main_match(core.hir_fn(CORE + "functions::BuiltInFunction::call")["body"], "functions::BuiltInFunction")
+    a10 = {H.last(v_): a_ for a_ in (mm10["arms"] if mm10 else []) for v_ in H.pat_variants(a_["pat"])}
+    rng = a10.get("Range")
+    if rng is None:
+        ctx.inst("C14.R10", "Range#empty-range", None, "no Range arm", None)
+    else:
+        verdict10, d10 = None, "no bounds test found"
+        for i_ in H.walk(rng["body"]):
+            if H.kind(i_) != "If" or not any(H.kind(x) == "Ret" for x in H.walk(i_["then"])):
+                continue
+            c_ = H.strip(i_["cond"])
+            neg = False
+            while H.kind(c_) == "Unary" and c_.get("op") == "Not":
+                neg = not neg
+                c_ = H.strip(c_["e"])
+            if H.kind(c_) == "Binary" and c_["op"] in ("Gt", "Lt", "Ge", "Le") and H.path_local(H.strip(c_["l"])) and H.path_local(H.strip(c_["r"])) and all((H.strip(z).get("ty") or "") in ("f64", "i64") for z in (c_["l"], c_["r"])):
+                at_equal = c_["op"] in ("Ge", "Le")
+                if neg:
+                    at_equal = not at_equal
+                verdict10 = not at_equal
+                d10 = "the bounds test %s%s %s %s refuses equal bounds: %s" % ("!" if neg else "", H.path_local(H.strip(c_["l"])), c_["op"], H.path_local(H.strip(c_["r"])), at_equal)
+        ctx.inst("C14.R10", "Range#empty-range", verdict10, d10, H.loc(rng["body"]))
+    srt = a10.get("Sort")
+    if srt is not None:
+        cond_sort = [H.loc(i_["cond"]) for i_ in H.walk(srt["body"]) if H.kind(i_) == "If" and any(H.kind(x) == "MethodCall" and x["name"].startswith("sort") for x in H.walk(i_["then"]))
+                     and (any(H.kind(x) == "MethodCall" and (x["name"] in ("get_type",) or x["name"].startswith("is_")) for x in H.walk(i_["cond"])) or any(H.kind(y) == "MethodCall" and y["name"] in ("get_type",) for y in H.walk(srt["body"])))]
+        ctx.inst("C14.R10", "Sort#unconditional", not cond_sort, "the sort runs under a test of the elements' kinds: %s" % (cond_sort or "no"), H.loc(srt["body"]))
     # key functions: called with the element alone, and as themselves
     ctx.rule("C14.R7", "sort_by, group_by and count_by call their key function with the element alone (no index), and hand the function value itself as its self reference at every call (both key evaluations of a sort_by comparison): the key of x is f(x), whatever f's arity and whether or not f is recursive", floor=4)
     from rules import c13 as c13_
